@@ -17,6 +17,7 @@ import hashlib
 import heapq
 
 EPOCH = 1_700_000_000.0
+STALLS = (0.001, 0.02, 0.15, 0.5, 2.0)
 
 _real_start = threading.Thread.start
 _real_join = threading.Thread.join
@@ -67,11 +68,12 @@ class Sched:
             self.rng = random.Random(spec.get("seed", 0))
             self.p_line = float(spec.get("p_line", 0.0))
             self.p_block = float(spec.get("p_block", 0.0))
+            self.p_stall = float(spec.get("p_stall", 0.0))
             self.replay = None
         else:
             self.rng = None
-            self.p_line = self.p_block = 0.0
-            self.replay = {(c[0], c[1]): c[2] for c in spec.get("choices", [])}
+            self.p_line = self.p_block = self.p_stall = 0.0
+            self.replay = {(c[0], c[1]): (c[2] if c[2] != -1 else ("stall", c[3])) for c in spec.get("choices", [])}
         self.choices = []          # recorded non-default decisions [tidx, ord, chosen]
         self.threads = []
         self.by_ident = {}
@@ -92,10 +94,13 @@ class Sched:
         self.deaths = []           # threads whose run() raised
         self.trace = None          # optional list of readable events (replay / debugging)
         self.line_hits = 0
+        self.stalls = 0
 
     # ------------------------------------------------------------------ log
     def ev(self, *a):
         """record an event in the run digest (must be free of ids, addresses, hash order)"""
+        if self.killing:
+            return      # teardown: parked threads unwind concurrently, nothing they do belongs to the run
         self.nlog += 1
         r = repr(a).encode()
         self._log.update(r)
@@ -104,6 +109,8 @@ class Sched:
 
     def sev(self, *a):
         """event that also goes into the interleaving digest"""
+        if self.killing:
+            return
         self._slog.update(repr(a).encode())
         self.ev(*a)
 
@@ -251,7 +258,7 @@ class Sched:
             return default
         if self.replay is not None:
             c = self.replay.get((me.idx, me.ord))
-            if c is not None:
+            if c is not None and not isinstance(c, tuple):
                 for t in r:
                     if t.idx == c:
                         if t is not default:
@@ -359,21 +366,45 @@ class Sched:
         self._handoff(me, kind="block")
         return not me.timed_out
 
+    def any_stalled(self):
+        return any(t.state == "blocked" and t.why == "stall" for t in self.threads)
+
+    def quiesce(self, step=2.5, rounds=60):
+        """driver: settle, and keep waiting while some thread is serving an injected stall"""
+        for _ in range(rounds):
+            self.settle(5.0)
+            if not self.any_stalled():
+                return True
+            self.sleep(step)
+        return False
+
     def line_event(self, code, line):
         me = self.by_ident.get(_get_ident())
         if me is None or me is not self.cur or self.killing:
             return
         self.line_hits += 1
         if self.replay is not None:
-            if (me.idx, me.ord + 1) not in self.replay:
+            c = self.replay.get((me.idx, me.ord + 1))
+            if c is None:
                 me.ord += 1
                 return
-        elif not self.p_line:
+            if isinstance(c, tuple):
+                me.ord += 1
+                self._stall(me, code, line, c[1])
+                return
+        elif not self.p_line and not self.p_stall:
             me.ord += 1
             return
-        elif self.rng.random() >= self.p_line:
-            me.ord += 1
-            return
+        else:
+            r = self.rng.random()
+            if r >= self.p_line:
+                me.ord += 1
+                if r < self.p_line + self.p_stall:
+                    # a slow / stalled thread: it stops here for a while although it is runnable
+                    dur = self.rng.choice(STALLS)
+                    self.choices.append([me.idx, me.ord, -1, dur])
+                    self._stall(me, code, line, dur)
+                return
         # a pre-emption is wanted here: pick among the other runnable threads
         self.steps += 1
         self._fire()
@@ -384,7 +415,7 @@ class Sched:
             return
         if self.replay is not None:
             c = self.replay.get((me.idx, me.ord))
-            ch = next((t for t in others if t.idx == c), None)
+            ch = next((t for t in others if t.idx == c), None) if not isinstance(c, tuple) else None
             if ch is None:
                 return
         else:
@@ -399,6 +430,11 @@ class Sched:
         if self.killing and me.idx != 0:
             raise SimKill()
         self._wake(me)
+
+    def _stall(self, me, code, line, dur):
+        self.stalls += 1
+        self.sev("stall", me.idx, code.co_name, line, dur)
+        self.block(None, dur, "stall")
 
     def tick(self):
         """cheap progress counter for calls that never block (time.time())"""
